@@ -599,7 +599,15 @@ def s_list_set(E, args, kw, st, node):
     yield st, SVal(Q.Update(xs.t, E.coerce(i, INT, st).t, E.coerce(v, xs.ty.elem, st).t), xs.ty)
 
 
-SPEC_FORMS = {"list_set": s_list_set, "utf8": s_utf8, "decode_utf8": s_decode, "decodable": s_decodable, "exc_code": s_exc_code, "implies": s_implies, "iff": s_iff, "ANY": s_any, "store": s_store, "ite": s_ite, "distinct": s_distinct,
+def s_val_of(E, args, kw, st, node):
+    v = args[0]
+    if isinstance(v, SVal) and isinstance(v.ty, TOpt):
+        yield st, SVal(E.U.dt(v.ty).get(v.t), v.ty.inner)
+    else:
+        yield st, v
+
+
+SPEC_FORMS = {"val_of": s_val_of, "list_set": s_list_set, "utf8": s_utf8, "decode_utf8": s_decode, "decodable": s_decodable, "exc_code": s_exc_code, "implies": s_implies, "iff": s_iff, "ANY": s_any, "store": s_store, "ite": s_ite, "distinct": s_distinct,
               "none": s_none, "dom": s_dom, "lookup": s_lookup, "subset": s_subset, "typed_empty": s_typed_empty}
 
 
